@@ -94,8 +94,45 @@ def step (E : Env S A O R X) (flag : Bool) (ss : List S) (as : List A) : List (S
 end VmapAutoReset
 
 /-! ### MultiToSingleWrapper -/
-def aggregate (aggR aggD : R → R) (t : TS O R X) : TS O R X :=
-  { t with reward := aggR t.reward, discount := aggD t.discount }
+
+/-- `_aggregate_timestep`: a new `TimeStep` with the same step type, observation and extras and the
+aggregated reward and discount (the aggregators may change the type: per-agent vector → scalar) -/
+def aggregate {R R' : Type} (aggR aggD : R → R') (t : TS O R X) : TS O R' X :=
+  { stepType := t.stepType, reward := aggR t.reward, discount := aggD t.discount, obs := t.obs,
+    extras := t.extras, nextObs := t.nextObs }
+
+namespace MultiToSingle
+variable {R' : Type}
+
+/-- `MultiToSingleWrapper.reset` (line by line) -/
+def reset (E : Env S A O R X) (aggR aggD : R → R') (key : Key) : S × TS O R' X :=
+  let (state, timestep) := E.reset key
+  let timestep := aggregate aggR aggD timestep
+  (state, timestep)
+
+/-- `MultiToSingleWrapper.step` (line by line) -/
+def step (E : Env S A O R X) (aggR aggD : R → R') (state : S) (action : A) : S × TS O R' X :=
+  let (state, timestep) := E.step state action
+  let timestep := aggregate aggR aggD timestep
+  (state, timestep)
+
+/-- the wrapper is itself an environment (with scalar reward and discount) -/
+def env (E : Env S A O R X) (aggR aggD : R → R') : Env S A O R' X :=
+  { reset := reset E aggR aggD, step := step E aggR aggD, key := E.key }
+
+/-- default `reward_aggregator = jnp.sum` over the per-agent vector (exact arithmetic) -/
+def sumAgg (rs : List Rat) : Rat := rs.foldl (· + ·) 0
+/-- default `discount_aggregator = jnp.max` (of a non-empty vector; `jnp.max` of an empty one raises) -/
+def maxAgg : List Rat → Rat
+  | [] => 0
+  | r :: rs => rs.foldl (fun a b => if a ≤ b then b else a) r
+/-- the other aggregators exercised by the correspondence check -/
+def minAgg : List Rat → Rat
+  | [] => 0
+  | r :: rs => rs.foldl (fun a b => if b ≤ a then b else a) r
+def meanAgg (rs : List Rat) : Rat := sumAgg rs / (rs.length : Rat)
+
+end MultiToSingle
 
 /-! ### Gym and dm_env adapters: state = (key, current env state) -/
 namespace Gym
@@ -137,5 +174,73 @@ def rightN : Nat → Key → Key
 def resetKey (n i : Nat) : Key := .left (rightN i (.seed n))
 
 end Gym
+
+
+/-! ### JumanjiToDMEnvWrapper: state = (key, current env state).  There is no `seed` method: the key is
+the constructor argument (default `PRNGKey(0)`).  `_state` is only annotated in `__init__`, so `step`
+before the first `reset` raises (AttributeError). -/
+namespace DmEnv
+
+structure St (S : Type) where
+  key : Key
+  state : Option S
+
+inductive Op (A : Type) | reset | step (a : A)
+
+/-- `dm_env.TimeStep`: reward and discount are `None` on the first timestep -/
+structure DmTS (O R : Type) where
+  stepType : StepType
+  reward : Option R
+  discount : Option R
+  obs : O
+  deriving DecidableEq, Repr
+
+inductive Out (O R : Type)
+  | ts (t : DmTS O R)
+  | error
+  deriving DecidableEq, Repr
+
+/-- `dm_env.restart(observation)` -/
+def restart {O R : Type} (o : O) : DmTS O R := { stepType := .first, reward := none, discount := none, obs := o }
+
+/-- `JumanjiToDMEnvWrapper.reset` / `.step` (line by line) -/
+def run1 (E : Env S A O R X) (st : St S) : Op A → St S × Out O R
+  | .reset =>
+    -- reset_key, self._key = jax.random.split(self._key)
+    let resetKey := Key.left st.key
+    let key' := Key.right st.key
+    -- self._state, timestep = self._jitted_reset(reset_key)
+    let (state, timestep) := E.reset resetKey
+    ({ key := key', state := some state }, .ts (restart timestep.obs))
+  | .step a =>
+    match st.state with
+    | none => (st, .error)
+    | some s =>
+      let (state, timestep) := E.step s a
+      ({ st with state := some state },
+       .ts { stepType := timestep.stepType, reward := some timestep.reward, discount := some timestep.discount,
+             obs := timestep.obs })
+
+/-- `JumanjiToDMEnvWrapper(env, key)` -/
+def init (k : Key) : St S := { key := k, state := none }
+
+/-- the outputs of a whole call sequence -/
+def trace (E : Env S A O R X) : St S → List (Op A) → List (Out O R)
+  | _, [] => []
+  | st, op :: ops => (run1 E st op).2 :: trace E (run1 E st op).1 ops
+
+def runAll (E : Env S A O R X) : St S → List (Op A) → St S
+  | st, [] => st
+  | st, op :: ops => runAll E (run1 E st op).1 ops
+
+/-- key of the `i`-th reset of an adapter constructed with key `k` -/
+def resetKey (k : Key) (i : Nat) : Key := .left (Gym.rightN i k)
+
+end DmEnv
+
+/-- the native rollout: states and timesteps of `env.step` along an action sequence -/
+def rollout (E : Env S A O R X) : S → List A → List (S × TS O R X)
+  | _, [] => []
+  | s, a :: as => E.step s a :: rollout E (E.step s a).1 as
 
 end Wr
